@@ -77,6 +77,15 @@ func TestVerifC05(t *testing.T) {
 		}
 	}
 
+	// 1b. gated: a rename runs while the last DecRef of a fid on the entry is parked in the backend's Close
+	for _, wga := range []bool{true, false} {
+		for _, dir := range []bool{true, false} {
+			for _, same := range []bool{true, false} {
+				emit(vhgCloseVsRename(wga, dir, same))
+			}
+		}
+	}
+
 	// 2. short sessions cut after every byte of every frame
 	nshort := 2
 	if thorough {
